@@ -458,7 +458,8 @@ def g_xfn(tier):
 def flag_setters():
     return [('X=va', lambda: A(X, V('va')), 'X'), ('Y=va', lambda: A(Y, V('va')), 'Y'), ('va=vb', lambda: A(V('va'), V('vb')), 'va'), ('va++', lambda: ExprS(Inc('++', False, V('va'))), 'va'), ('X++', lambda: ExprS(Inc('++', False, X)), 'X'),
             ('Y--', lambda: ExprS(Inc('--', False, Y)), 'Y'), ('va=vb+1', lambda: A(V('va'), B('+', V('vb'), C(1))), 'va'), ('va=aY', lambda: A(V('va'), Index('arr', Y)), 'va'), ('va&=3', lambda: A(V('va'), C(3), '&='), 'va'),
-            ('X=aY', lambda: A(X, Index('arr', Y)), 'X'), ('wa++', lambda: ExprS(Inc('++', False, V('wa'))), 'wa'), ('sa=sb', lambda: A(V('sa'), V('sb')), 'sa'), ('va=f', lambda: A(V('va'), Call('f', [V('vb')])), 'va')]
+            ('X=aY', lambda: A(X, Index('arr', Y)), 'X'), ('wa++', lambda: ExprS(Inc('++', False, V('wa'))), 'wa'), ('wa--', lambda: ExprS(Inc('--', False, V('wa'))), 'wa'), ('--ha', lambda: ExprS(Inc('--', True, V('ha'))), 'ha'),
+            ('wa-=1', lambda: A(V('wa'), C(1), '-='), 'wa'), ('wa+=vb', lambda: A(V('wa'), V('vb'), '+='), 'wa'), ('wa=wb', lambda: A(V('wa'), V('wb')), 'wa'), ('sa=sb', lambda: A(V('sa'), V('sb')), 'sa'), ('va=f', lambda: A(V('va'), Call('f', [V('vb')])), 'va')]
 
 
 def g_flagctx(tier):
